@@ -124,11 +124,15 @@ class C10(LoopSpec):
         if tier == "quick":
             return [mkjob("R1", 3, True, fms=True), mkjob("R2", 3, True, fms=True, use_teleop_in_autonomous=True), mkjob("R5", 3, False, fms=True),
                     mkjob("R1", 3, True, fms=True, faults=1, fault_patterns=["always"],
-                          fault_sites=["robot.teleopPeriodic", "c1.execute", "c2.execute", "robot.robotPeriodic", "auto.on_iteration"])]
+                          fault_sites=["robot.teleopPeriodic", "c1.execute", "c2.execute", "robot.robotPeriodic", "auto.on_iteration"]),
+                    # faults that are not Exception subclasses (sys.exit() / Ctrl-C inside a callback), swallowed under the FMS
+                    mkjob("R1", 2, True, fms=True, faults=1, fault_patterns=["always", "later"], fault_kind="base",
+                          fault_sites=["c1.execute", "c2.execute", "robot.robotPeriodic"])]
         fs = ["robot.teleopPeriodic", "c1.execute", "c2.execute", "robot.robotPeriodic", "auto.on_iteration", "c1.fb_probe"]
         return [mkjob("R1", 4, True, fms=True), mkjob("R2", 3, True, fms=True), mkjob("R3", 3, True, fms=True), mkjob("R5", 3, True, fms=True),
                 mkjob("R2", 3, True, fms=True, faults=1, fault_patterns=["always", "first", "later"], fault_sites=fs),
-                mkjob("R1", 2, True, fms=True, faults=2, fault_patterns=["always"], fault_sites=fs[:4])]
+                mkjob("R1", 2, True, fms=True, faults=2, fault_patterns=["always"], fault_sites=fs[:4]),
+                mkjob("R1", 3, True, fms=True, faults=1, fault_patterns=["always", "later"], fault_kind="any", fault_sites=fs[:4])]
 
     def reach_required(self, tier):
         return ["read", "write", "read-sees-same-iteration-write", "enabled-iteration-end", "journal", "setup-sees-markers"]
